@@ -16,7 +16,12 @@ def patch_function(owner, name, old, new, count=1):
     if isinstance(fn, (staticmethod, classmethod)):
         wrapper = type(fn)
         fn = fn.__func__
+    elif isinstance(fn, property):
+        wrapper = property
+        fn = fn.fget
     src = textwrap.dedent(inspect.getsource(fn))
+    if wrapper is property:
+        src = "\n".join(ln for ln in src.split("\n") if ln.strip() != "@property")
     if isinstance(owner, type):
         # zero-argument super() needs the class cell, which a re-compiled function lacks
         src = src.replace("super()", "super(%s, self)" % owner.__name__)
